@@ -30,6 +30,7 @@ import (
 	"math/rand/v2"
 	"runtime"
 	"sort"
+	"strconv"
 	"strings"
 	"sync"
 	"testing"
@@ -219,7 +220,15 @@ func (w *world) putRaw(now int64, id, ver string, end int64) {
 			StartsAt: w.t0, EndsAt: w.t0.Add(time.Duration(end))},
 		UpdatedAt: w.t0.Add(time.Duration(now)),
 	}
-	if err := w.alerts.Put(context.Background(), a); err != nil {
+	// every third version is submitted by a caller that has already gone away (client disconnect, API timeout):
+	// the request context is cancelled; what the provider accepted must still reach the dispatcher
+	ctx := context.Background()
+	if n, err := strconv.Atoi(ver); err == nil && n%3 == 2 {
+		c, cancel := context.WithCancel(ctx)
+		cancel()
+		ctx = c
+	}
+	if err := w.alerts.Put(ctx, a); err != nil {
 		panic(err)
 	}
 }
